@@ -22,8 +22,13 @@ def results(out):
 
 
 def main():
-    wt, prop, name = sys.argv[1:4]
-    checks = [prop] + sys.argv[4:]
+    argv = [a for a in sys.argv[1:] if not a.startswith("--")]
+    confirm_only = "--confirm-only" in sys.argv
+    check_only = "--check-only" in sys.argv
+    wt, prop, name = argv[0:3]
+    checks = [prop] + argv[3:]
+    if check_only:
+        return run_checks(os.path.join(VERIF, "seeded", name), checks)
     d = os.path.join(VERIF, "seeded", name)
     os.makedirs(d, exist_ok=True)
     rc, diff = sh("git diff -- src/", cwd=wt)
@@ -44,16 +49,27 @@ def main():
     rc2, o2 = sh("cargo test --offline%s --test seeded_demo 2>&1" % feat, cwd=wt)
     meta["demo_with_change"] = {"rc": rc2, "results": results(o2)}
     # 3. demo without
-    sh("git stash push -- src/", cwd=wt)
+    pd = os.path.join(d, "patch.diff")
+    rcr, orr = sh("git apply -R %s" % pd, cwd=wt)
+    assert rcr == 0, orr
     rc3, o3 = sh("cargo test --offline%s --test seeded_demo 2>&1" % feat, cwd=wt)
-    sh("git stash pop", cwd=wt)
+    rcr, orr = sh("git apply %s" % pd, cwd=wt)
+    assert rcr == 0, orr
     meta["demo_without_change"] = {"rc": rc3, "results": results(o3)}
     meta["confirmed"] = rc1 == 0 and rc1d == 0 and rc2 != 0 and rc3 == 0
     meta["ran"] += ["cargo test --offline --no-fail-fast (change applied, demo aside)",
                     "cargo test --offline --features dir --no-fail-fast (change applied, demo aside)",
                     "cargo test --offline --test seeded_demo (change applied): must fail",
-                    "git stash push -- src/; cargo test --offline --test seeded_demo: must pass; git stash pop"]
+                    "git apply -R patch.diff; cargo test --offline --test seeded_demo: must pass; git apply patch.diff"]
     print(json.dumps({k: meta[k] for k in ("existing_suite_with_change", "demo_with_change", "demo_without_change", "confirmed")}, indent=1))
+    json.dump(meta, open(os.path.join(d, "meta.json"), "w"), indent=1)
+    if confirm_only:
+        return
+    run_checks(d, checks)
+
+
+def run_checks(d, checks):
+    meta = json.load(open(os.path.join(d, "meta.json")))
     # 4. our checks against it
     assert sh("git -C /repo status --porcelain")[1].strip() == "", "/repo not clean"
     rc, o = sh("git -C /repo apply %s" % os.path.join(d, "patch.diff"))
